@@ -223,15 +223,19 @@ def store (s : ShardSet) : List ShardSet → List ShardSet
   | [] => [s]
   | t :: rest => if t.id == s.id then s :: rest else t :: store s rest
 
-/-- the tuning branch (`if dec.shouldTune { … }`), entered with `shouldTune` already set -/
-def retune (C : CodecNew) (dec : Decoder) : Decoder :=
+/-- the tuning branch (`if dec.shouldTune { … }`), entered with `shouldTune` already set;
+    `seq` is the id of the packet being decoded -/
+def retune (C : CodecNew) (dec : Decoder) (seq : BitVec 32) : Decoder :=
   let ads := dec.tune.findPeriod true
   let aps := dec.tune.findPeriod false
   if 0 < ads ∧ 0 < aps ∧ ads + aps < 256 then
     if ads ≠ dec.d ∨ aps ≠ dec.p then
       { dec with d := ads.toNat, p := aps.toNat, n := ads.toNat + aps.toNat,
                  paws := pawsOf (ads.toNat + aps.toNat), sets := [],
-                 codec := C ads.toNat aps.toNat, shouldTune := false }
+                 codec := C ads.toNat aps.toNat, shouldTune := false,
+                 -- shard ids are counted in units of the new shard size from here on
+                 -- (`dec.newestShardId = dec.getShardId(in.seqid())`, repair of finding D12)
+                 newest := seq / u32 (ads.toNat + aps.toNat) }
     else { dec with shouldTune := false }
   else { dec with shouldTune := true }
 
@@ -246,7 +250,7 @@ def Decoder.decode (C : CodecNew) (dec : Decoder) (inp : Bytes) : DecOut :=
     let seq := seqid inp
     let dec1 := { dec with tune := dec.tune.sample (flag inp == typeData) seq }
     if seq.toNat ≥ dec1.paws.toNat then { st := dec1, recovered := [] }
-    else if mismatch dec1 inp || dec1.shouldTune then { st := retune C dec1, recovered := [] }
+    else if mismatch dec1 inp || dec1.shouldTune then { st := retune C dec1 seq, recovered := [] }
     else
       let shardId := seq / u32 dec1.n
       let set := (lookup shardId dec1.sets).getD { id := shardId, pkts := [] }
